@@ -39,6 +39,9 @@ var framePropKinds = map[string][]string{
 	"C18": {"global", "noconc", "pkgvar", "readonly", "noretain", "noshare"},
 	"C17": {"global", "nondet", "pkgvar"},
 	"C12": {"global", "readonly", "replaces", "init", "noretain", "noshare"},
+	// the solution a caller reads after ExecuteOC / ExecutePolyTree is the one of this execution only
+	"C09": {"replaces"},
+	"C04": {"replaces"},
 }
 
 func frameObligations(w *World, prop string) []*FrameOb {
